@@ -25,6 +25,8 @@ def make_config(prop, seed, tier):
         "backend": r.choice(BACKENDS),
         "steps": (r.randint(10, 30) if tier == "quick" else r.randint(15, 70)) + (10 if prop == "C06" else 0),
         "io_faults": prop == "C01" and r.random() < 0.35,
+        # one read-side step (open / stat / listdir) of a write fails
+        "read_faults": prop == "C06" and r.random() < 0.5,
         "listing": True,
         # several store objects on one directory = several server processes
         # taking turns (no overlap): their in-memory caches go stale
@@ -134,6 +136,21 @@ class StoreRun:
             free = {"op": "delete", "name": n, "handle": hb} if r.random() < 0.5 else imp(n, "u-freed-%d" % self.fresh, hb)
             self.queue = [free, imp("h%d.ics" % self.fresh, u, hb), imp("h%d.ics" % (self.fresh + 1), u, ha)]
             return imp("scan%d.ics" % self.fresh, "u-scan-%d" % self.fresh, ha)
+        if self.prop == "C06" and self.cfg.get("read_faults") and r.random() < 0.2 and self.stats.get("fault.read_error_armed", 0) < 4:
+            # a fresh member, then an unrelated write whose read side fails once somewhere (the
+            # UID scan reads the fresh member there), then a write that wants the fresh member's UID
+            h = r.randrange(nh)
+            self.fresh += 3
+            f = self.fresh
+
+            def imp2(name, uid):
+                b, ct = self.body(name, uid)
+                return {"op": "import", "name": name, "body": b.decode("latin-1"), "ctype": ct, "handle": h}
+
+            c = imp2("rfc%d.ics" % f, "u-rfc-%d" % f)
+            c["rfault"] = {"after": r.randint(1, max(8, getattr(self, "last_import_events", 30))), "errno": "EIO"}
+            self.queue = [c, imp2("rfp%d.ics" % f, "u-rfa-%d" % f)]
+            return imp2("rfa%d.ics" % f, "u-rfa-%d" % f)
         if self.prop == "C06" and holders and r.random() < 0.1:
             # a member is deleted and comes back byte-identical; its UID must be taken again
             n, u = r.choice(holders)
@@ -238,6 +255,8 @@ class StoreRun:
                         op["handle"] = self.rng.randrange(len(self.handles))
                     if self.cfg.get("io_faults") and op["op"] in ("import", "delete") and self.rng.random() < 0.2 and self.stats.get("fault.io_error_armed", 0) < 2:
                         op["fault"] = {"after": self.rng.randint(1, 3 if self.cfg["backend"] == "vdir" else 25), "errno": self.rng.choice(["ENOSPC", "EIO"])}
+                    if self.cfg.get("read_faults") and op["op"] == "import" and "fault" not in op and "rfault" not in op and self.rng.random() < 0.25 and self.stats.get("fault.read_error_armed", 0) < 3:
+                        op["rfault"] = {"after": self.rng.randint(1, 40), "errno": self.rng.choice(["EIO", "EIO", "EMFILE"])}
                     self.step(op)
                     if self.violations:
                         break
@@ -291,8 +310,13 @@ class StoreRun:
         if fault:
             FS.err_at = {FS.mut_seq + fault["after"]: getattr(errno, fault["errno"])}
             self.count("fault.io_error_armed")
+        rfault = op.get("rfault")
+        if rfault:
+            FS.read_err_at = {FS.ev_seq + rfault["after"]: getattr(errno, rfault["errno"])}
+            self.count("fault.read_error_armed")
         exc = None
         res = None
+        ev0 = FS.ev_seq
         try:
             if k == "import":
                 re_ = self.resolve_etag(op.get("replace_etag"))
@@ -302,10 +326,13 @@ class StoreRun:
                 res = st.delete_one(op["name"], etag=et)
         except Exception as e:  # noqa: BLE001 - outcome of the operation
             exc = e
+        if k == "import":
+            self.last_import_events = FS.ev_seq - ev0
         fired = bool(FS.err_fired)
         FS.err_at = {}
+        FS.read_err_at = {}
         if fired:
-            self.count("fault.io_error_fired")
+            self.count("fault.read_error_fired" if rfault else "fault.io_error_fired")
             FS.err_fired = []
         self.digest.update(("%s %s %s\n" % (k, op.get("name"), type(exc).__name__ if exc else "ok")).encode())
         self.audit(op, res, exc, "fault" if fired else "op")
@@ -385,7 +412,7 @@ class StoreRun:
             # target may be old or new, nothing else may differ
             for n, m in model.items():
                 if n != target and (n not in obs or obs[n][1] != m["bytes"]):
-                    self.v("C01", "C01.io-error-damaged-other-member", "after an injected %s during %s(%s): %s changed" % (op["fault"]["errno"], k, name, n))
+                    self.v("C01", "C01.io-error-damaged-other-member", "after an injected %s during %s(%s): %s changed" % ((op.get("fault") or op.get("rfault"))["errno"], k, name, n))
             for n in obs:
                 if n != target and n not in model:
                     self.v("C01", "C01.io-error-created-member", "after an injected I/O error: %s appeared" % n)
